@@ -1,11 +1,43 @@
-(* C08 (PLACEHOLDER, to be replaced by the real theorems): concatenating the CVs of the
-   left and right halves is order independent in the sense used by the join seam: the
-   lengths (number of CVs written) add up the same whichever half is computed first. *)
-From Coq Require Import NArith List Bool Lia.
+(* C08: multithreaded hashing is deterministic under every schedule.
+   Model (Model/Concurrency.v): at a split of compress_subtree_wide the left half writes its CVs into
+   slots [0, degree) of the node's cv_array and the right half into slots [degree, degree + right_n);
+   a schedule is ANY interleaving of the two halves' write events (left-first, right-first and every
+   concurrent interleaving); the parent layer then reads the first left_n + right_n slots.
+   Statements only; proofs in Proofs/ConcurrencyP.v.  The thread runtime (rayon, TBB, the hardware
+   memory model) is trusted, not modelled; it is exercised by tools/props/C08.py. *)
+From Coq Require Import NArith List Bool.
+From V Require Import Base.Res Model.Concurrency Proofs.ConcurrencyP.
 Import ListNotations.
+Open Scope N_scope.
 
-Theorem C08_join_lengths_commute : forall (l r : list (list N)),
-  length (l ++ r) = length (r ++ l).
-Proof. intros l r. rewrite !app_length. lia. Qed.
+(* the halves never write the same slot (left_n <= degree is asserted by the code and proved in C01) *)
+Theorem C08_halves_disjoint : forall degree lcvs rcvs, (length lcvs <= degree)%nat ->
+  disjoint (slots (events_from 0 lcvs)) (slots (events_from degree rcvs)).
+Proof. exact halves_disjoint. Qed.
 
-Print Assumptions C08_join_lengths_commute.
+(* disjoint write sets: every interleaving leaves the same memory as left-then-right *)
+Theorem C08_interleave_irrelevant : forall l r m, Interleave l r m -> disjoint (slots l) (slots r) ->
+  forall mem, apply_writes mem m = apply_writes mem (l ++ r).
+Proof. exact interleave_irrelevant. Qed.
+
+(* whatever the schedule, the parent layer of the node sees exactly left ++ right *)
+Theorem C08_split_node_schedule_independent : forall cap degree lcvs rcvs m,
+  length lcvs = degree -> (degree + length rcvs <= cap)%nat ->
+  Interleave (events_from 0 lcvs) (events_from degree rcvs) m ->
+  split_node cap degree lcvs rcvs m = lcvs ++ rcvs.
+Proof. exact split_node_schedule_independent. Qed.
+
+(* left-first (SerialJoin) and right-first are schedules *)
+Theorem C08_serial_is_a_schedule : forall (l r : list wr), Interleave l r (l ++ r) /\ Interleave l r (r ++ l).
+Proof. intros l r. split; [apply interleave_left_first|apply interleave_right_first]. Qed.
+
+Example C08_nonvacuous :
+  let l := [[1]; [2]] in let r := [[3]] in
+  split_node 8 2 l r [(2%nat, [3]); (0%nat, [1]); (1%nat, [2])] = [[1]; [2]; [3]] /\
+  Interleave (events_from 0 l) (events_from 2 r) [(2%nat, [3]); (0%nat, [1]); (1%nat, [2])].
+Proof. split; [reflexivity|]. cbn. apply IL_right. apply IL_left. apply IL_left. constructor. Qed.
+
+Print Assumptions C08_halves_disjoint.
+Print Assumptions C08_interleave_irrelevant.
+Print Assumptions C08_split_node_schedule_independent.
+Print Assumptions C08_serial_is_a_schedule.
